@@ -95,6 +95,10 @@ def export_format(subtree, **params):
                subtree.data['edge'],
                subtree.parent.data['num'])
     else:
+        if subtree.data['morph'] == None:
+            subtree.data['morph'] = "--"
+        if subtree.data['lemma'] == None:
+            subtree.data['lemma'] = "--"
         return u"%s%s%s%s%s\t%s%s%s\t%d\n" \
             % (subtree.data['word'],
                export_tabs(len(subtree.data['word'])),
